@@ -45,7 +45,7 @@ def register(reg):
                       ('property', 'result == (self.pos > old_self.pos)'),
                       ('property', 'spec_stable(self, self.pos, regex)'), *KEEP],
              invariants={0: ['p == self.pos', 'self.pos >= old_self.pos', 'self.pos <= self.len', 'res == (self.pos > old_self.pos)', *KEEP]},
-             decreases={0: 'self.len - p'})
+             decreases={0: 'self.len - self.pos'})
     contract(reg, f'{T}:TextLinesCursor.next_token', P, {'self': 'Cursor'}, ret='None', modifies=['self'],
              ensures=[('property', 'self.pos >= old_self.pos'), 'self.pos <= self.len',
                       ('property', 'spec_stable(self, self.pos, self.input.whitespace_re)'),
@@ -92,4 +92,4 @@ def register(reg):
     contract(reg, f'{Bf}:BufferCursor._eat_regex', P, {'self': 'BCursor', 'regex': 'Val'}, ret='None', modifies=['self'],
              ensures=[('property', 'self.pos >= old_self.pos'), 'self.pos <= self.len', *KB],
              invariants={0: ['p == self.pos', 'self.pos >= old_self.pos', 'self.pos <= self.len', *KB]},
-             decreases={0: 'self.len - p'})
+             decreases={0: 'self.len - self.pos'})
